@@ -1,5 +1,7 @@
 import SFV.Proofs.StatesFock
 import SFV.Proofs.StatesGauss
+import SFV.Proofs.StatesFock2
+import SFV.Proofs.StatesGauss2
 
 /-!
 # C16 — the observables of a state object are consistent and answer for exactly the requested modes
@@ -204,6 +206,122 @@ theorem samples_expectation_order (samples : List (List Int)) (modes modes' : Li
     samplesVariance samples modes = samplesVariance samples modes' :=
   samplesExpectation_perm samples modes modes' h
 
+/-! ## registers with holes: `state(modes)` speaks about subsystem indices (main's fix `986d6a2`) -/
+
+/-- **`FockBackend.state(modes)` after mode deletions**: for a well-formed mode map and every duplicate-free list of *active
+subsystem indices* in any order, the result is the reduced state of the axes these subsystems live on, in the requested order,
+flagged mixed and labelled with the requested subsystems -/
+theorem state_modes_order_holes {K : Type} [Zero K] [Add K] [Mul K] (cj : K → K) (D n : Nat) (pure : Bool)
+    (map : List (Option Nat)) (modes : List Nat) (st : Tens K) (hw : WellFormedMap map)
+    (hn : (activeModes map).length = n) (hne : modes ≠ []) (hd : modes.Nodup) (ha : ∀ m ∈ modes, m ∈ activeModes map) :
+    ∃ T, fockBackendStateR cj D n pure map (some modes) st = .ok (false, modes.length, T, modes) ∧
+      ∀ idx, T idx = reducedSpec D n (modes.map (axisOf map)) (if pure then mix cj st else st) idx :=
+  fockBackendStateR_order cj D n pure map modes st hw hn hne hd ha
+
+/-- … and every other list (duplicates, deleted subsystems, beyond the register, empty) is rejected -/
+theorem state_modes_raises_holes {K : Type} [Zero K] [Add K] [Mul K] (cj : K → K) (D n : Nat) (pure : Bool)
+    (map : List (Option Nat)) (modes : List Nat) (st : Tens K)
+    (h : ¬ (modes ≠ [] ∧ modes.Nodup ∧ ∀ m ∈ modes, m ∈ activeModes map)) :
+    ∃ e, fockBackendStateR cj D n pure map (some modes) st = .error e :=
+  fockBackendStateR_raises cj D n pure map modes st h
+
+/-- **`GaussianBackend.state(modes)` after mode deletions**: every list of active subsystems (any order) gives the xxpp data of
+exactly these subsystems, labelled with them; `None` is the list of all active subsystems; anything else is a `ValueError` -/
+theorem gaussian_state_modes_order_holes {K : Type} (nlen : Nat) (active modes : List Nat) (xpxp : GData K)
+    (hact : ∀ m ∈ active, m < nlen) (hm : ∀ m ∈ modes, m ∈ active) :
+    ∃ r, gaussBackendStateA nlen active (some modes) xpxp = .ok (modes.length, r, modes) ∧
+      ∀ a b, a < modes.length → b < modes.length →
+        r.mu a = xpxp.mu (2 * at' modes a) ∧ r.mu (a + modes.length) = xpxp.mu (2 * at' modes a + 1) ∧
+        r.cov a b = xpxp.cov (2 * at' modes a) (2 * at' modes b) ∧
+        r.cov a (b + modes.length) = xpxp.cov (2 * at' modes a) (2 * at' modes b + 1) ∧
+        r.cov (a + modes.length) b = xpxp.cov (2 * at' modes a + 1) (2 * at' modes b) ∧
+        r.cov (a + modes.length) (b + modes.length) = xpxp.cov (2 * at' modes a + 1) (2 * at' modes b + 1) :=
+  gaussBackendStateA_order nlen active modes xpxp hact hm
+
+theorem gaussian_state_modes_none {K : Type} (nlen : Nat) (active : List Nat) (xpxp : GData K) :
+    gaussBackendStateA nlen active none xpxp = gaussBackendStateA nlen active (some active) xpxp :=
+  gaussBackendStateA_none nlen active xpxp
+
+theorem gaussian_state_modes_raises_holes {K : Type} (nlen : Nat) (active modes : List Nat) (xpxp : GData K)
+    (h : ∃ m ∈ modes, m ∉ active) :
+    gaussBackendStateA nlen active (some modes) xpxp = .error .valueError :=
+  gaussBackendStateA_raises nlen active modes xpxp h
+
+/-- **`BosonicBackend.state(modes)` labels** (main's fix `d248f7a`): label `a` names the subsystem whose `x, p` are rows
+`2a, 2a+1` of the returned data -/
+theorem bosonic_state_labels (nlen : Nat) (modes : List Nat) (hd : modes.Nodup) (hr : ∀ m ∈ modes, m < nlen)
+    (a : Nat) (ha : a < modes.length) :
+    ∃ ind, bosonicBackendState nlen modes = .ok (modes.length, ind) ∧
+      ind.getD (2 * a) 0 = 2 * (bosonicBackendLabels modes).getD a 0 ∧
+      ind.getD (2 * a + 1) 0 = 2 * (bosonicBackendLabels modes).getD a 0 + 1 :=
+  bosonicBackendLabels_data nlen modes hd hr a ha
+
+/-! ## the einsum string and the NumPy sorting contracts -/
+
+/-- **the list `ind` built by the `insert` loop** of `reduced_dm` / `FockBackend.state`, letter by letter: axis pair `m` carries the
+`c`-th pair of output letters when its role is `some c`, the doubled `t`-th trace letter when it is the `t`-th traced mode -/
+theorem einsum_string_closed_form (n : Nat) (modes : List Nat) (hd : modes.Nodup) (hr : ∀ m ∈ modes, m < n) :
+    indList n modes = (List.range n).map fun m =>
+      match (roles n modes).getD m none with
+      | some c => (2 * c, 2 * c + 1)
+      | none => (2 * modes.length + ((List.range m).filter fun x => !modes.contains x).length,
+                 2 * modes.length + ((List.range m).filter fun x => !modes.contains x).length) :=
+  indList_eq n modes hd hr
+
+/-- **`np.einsum` of that string is the role einsum** every theorem above speaks about -/
+theorem einsum_string_is_role_einsum {K : Type} [AddCommMonoid K] (D n : Nat) (modes : List Nat) (ρ : Tens K)
+    (hd : modes.Nodup) (hr : ∀ m ∈ modes, m < n) (idx : Idx) :
+    einsumLetters D (indList n modes) (2 * modes.length) ρ idx = einsumRoles D (roles n modes) ρ idx :=
+  einsumLetters_eq_roles D n modes ρ hd hr idx
+
+/-- **any implementation of `np.argsort`** (a permutation of the positions along which the keys do not decrease) returns the
+model's `argsort` on a duplicate-free list — the theorems do not depend on merge sort -/
+theorem argsort_contract (l σ : List Nat) (hd : l.Nodup) (h : IsArgsort l σ) : σ = argsort l :=
+  argsort_unique l σ hd h
+
+/-- **any implementation of `np.sort`** returns the model's sorted list -/
+theorem sort_contract (l s : List Nat) (h : IsSorted l s) : s = l.mergeSort fun a b => decide (a ≤ b) :=
+  sort_unique l s h
+
+/-! ## polynomial observables: `poly_quad_expectation` and the bosonic weighted sums -/
+
+/-- **`poly_quad_expectation(A = 0, d = e_{x_m}, k = 0, φ)` is `quad_expectation(m, φ)`** — mean and variance, every state -/
+theorem poly_quad_linear_is_quad_expectation {K : Type} [Field K] [DecidableEq K] (hbar : K) (n m : Nat) (c s : K) (g : GData K)
+    (hm : m < n) (rotate : Bool) (hrot : rotate = false → c = 1 ∧ s = 0) :
+    gaussPolyQuad hbar n (fun _ _ => 0) (fun a => if a = m then 1 else 0) 0 rotate c s g
+      = quad1 c s (selectG [m, m + n] g) :=
+  gaussPolyQuad_linear hbar n m c s g hm rotate hrot
+
+/-- **`poly_quad_expectation` of `(x_m² + p_m²)/(2ħ) − 1/2` is `mean_photon(m)`** — mean and variance, including the
+symmetric-ordering correction term, for every ħ ≠ 0 -/
+theorem poly_quad_number_is_mean_photon {K : Type} [Field K] [DecidableEq K] (hbar : K) (hh : hbar ≠ 0) (h2 : (2 : K) ≠ 0)
+    (n m : Nat) (g : GData K) (hm : m < n) :
+    gaussPolyQuad hbar n (fun a b => if a = b ∧ (a = m ∨ a = m + n) then 1 / (2 * hbar) else 0) (fun _ => 0) (-(1 / 2))
+      false 1 0 g
+      = meanPhoton1 hbar (selectG [m, m + n] g) :=
+  gaussPolyQuad_number hbar hh h2 n m g hm
+
+/-- **bosonic `mean_photon`** of a one-component state is the Gaussian value (mean and variance) … -/
+theorem bosonic_mean_photon_single {K : Type} [Field K] (hbar : K) (g : GData K) :
+    bosonicMeanPhoton hbar [((1 : K), g)] = meanPhoton1 hbar g :=
+  bosonicMeanPhoton_single hbar g
+
+/-- … and in general the weighted sum of the components' Gaussian means (weights summing to one) -/
+theorem bosonic_mean_photon_mix {K : Type} [Field K] (hbar : K) (comps : List (K × GData K))
+    (hw : wsum (comps.map fun p => p.1) = 1) :
+    (bosonicMeanPhoton hbar comps).1 = wsum (comps.map fun p => p.1 * (meanPhoton1 hbar p.2).1) :=
+  bosonicMeanPhoton_mix hbar comps hw
+
+/-- **bosonic `quad_expectation`** of a one-component state is the Gaussian value; the mean is the weighted sum in general; the
+densities `marginal` mixes have the components' `quad_expectation` as mean and variance (by definition of the model) -/
+theorem bosonic_quad_single {K : Type} [CommRing K] (c s : K) (g : GData K) :
+    bosonicQuad c s [((1 : K), g)] = quad1 c s g :=
+  bosonicQuad_single c s g
+
+theorem bosonic_quad_mix {K : Type} [CommRing K] (c s : K) (comps : List (K × GData K)) :
+    (bosonicQuad c s comps).1 = wsum (comps.map fun p => p.1 * (quad1 c s p.2).1) :=
+  bosonicQuad_mix c s comps
+
 /-! ## non-vacuity: the hypotheses are met by concrete non-trivial objects (3–4 modes, permuted selections) -/
 
 example : ([0, 2] : List Nat).Pairwise (· < ·) ∧ ∀ m ∈ ([0, 2] : List Nat), m < 3 := by decide
@@ -218,6 +336,20 @@ example : roles 3 [2, 0] = [some 0, none, some 1] ∧ tracedOf (roles 3 [2, 0]) 
 example : interleaved [0, 2] = [0, 1, 4, 5] ∧ indexPerm [1, 0] = [2, 3, 0, 1] := by decide
 example : gaussInd 3 [0, 2] = [0, 2, 3, 5] ∧ gaussBackendInd [2, 0] = [4, 0, 5, 1] := by decide
 example : (2 : Rat) ≠ 0 := by decide
+/-- a four-subsystem register with subsystem 1 deleted: well formed, three axes, selection `[3, 0, 2]` is valid -/
+example : activeModes [some 0, none, some 1, some 2] = [0, 2, 3] ∧
+    [3, 0, 2].map (axisOf [some 0, none, some 1, some 2]) = [2, 0, 1] ∧
+    remapModes [some 0, none, some 1, some 2] [3, 0, 2] = .ok [2, 0, 1] ∧
+    remapModes [some 0, none, some 1, some 2] [1] = .error .valueError ∧
+    remapModes [some 0, none, some 1, some 2] [4] = .error .indexError := by decide
+example : WellFormedMap [some 0, none, some 1, some 2] := by
+  intro m hm
+  have : m = 0 ∨ m = 1 ∨ m = 2 ∨ m = 3 := by simp at hm; omega
+  rcases this with h | h | h | h <;> subst h <;> decide
+/-- the string of `reduced_dm([0, 2])` on three modes: `ab ee cd -> abcd` -/
+example : indList 3 [0, 2] = [(0, 1), (4, 4), (2, 3)] := by decide
+example : IsSorted [2, 0, 1] [0, 1, 2] := ⟨by decide, by decide⟩
+example : IsArgsort [5, 1, 3] [1, 2, 0] := ⟨by decide, by decide⟩
 example : ([0, 2, 1] : List Nat).Perm [2, 1, 0] := by decide
 example : samplesExpectation [[2, 0, 1], [1, 3, 2]] [0, 2] = (4, 2) := by decide
 
